@@ -6,7 +6,8 @@
    integers, && and || with short-circuit evaluation, calls (recursion allowed);
    statements: x := e, x = e, x op= e, x++ / x--, if / if-else, three-clause for, break, continue,
    return e1, ..., en, nested blocks, call statements, a, _, c := f(...) and a, _, c = f(...) for functions
-   with several results.
+   with several results, switch (on an integer tag, on a boolean tag, or without tag; several expressions per
+   case; default clause last; break leaves the switch, continue and return pass through it).
 
    One choice follows pkg/compiler rather than the Go specification: the operands of a return with several
    values are evaluated right to left, and the targets of a multiple assignment are stored last to first. Go and
@@ -60,8 +61,14 @@ Inductive stmt :=
 | SReturn (es : list expr)               (* return e1, ..., en *)
 | SBlock (s : stmt)                      (* { s } *)
 | SCall (f : nat) (args : list expr)     (* call statement, results dropped *)
-| SCallAssign (decl : bool) (xs : list (option ident)) (f : nat) (args : list expr).
+| SCallAssign (decl : bool) (xs : list (option ident)) (f : nat) (args : list expr)
                                          (* x1, ..., xn := f(args)  /  x1, ..., xn = f(args); None is the blank _ *)
+| SSwitch (tag : option expr) (cs : stmt) (* switch tag { cs }; no tag = true; cs is a chain of the three clause
+                                            constructors below (they are statements only to keep one inductive type) *)
+| CNil                                   (* end of the clauses *)
+| CDefault (body : stmt)                 (* default: body   -- the last clause *)
+| CCase (num : bool) (es : list expr) (body : stmt) (rest : stmt).
+                                         (* case e1, ..., en: body; num: integer comparison (else boolean) *)
 
 Record func := { f_params : list ident; f_nres : nat; f_body : stmt }.
 Definition program := list func.
@@ -136,6 +143,14 @@ Fixpoint assign_results (xs : list (option ident)) (rs : list val) (r : env) : o
   | Some x :: xs', v :: rs' => match update x v r with Some r' => assign_results xs' rs' r' | None => None end
   | None :: xs', _ :: rs' => assign_results xs' rs' r
   | _, _ => Some r
+  end.
+
+(* case expression against the tag *)
+Definition val_match (num : bool) (tv v : val) : res bool :=
+  match num, tv, v with
+  | true, VInt a, VInt b => Ok (a =? b)
+  | false, VBool a, VBool b => Ok (Bool.eqb a b)
+  | _, _, _ => Undef
   end.
 
 (* ---------- the evaluator ---------- *)
@@ -264,6 +279,44 @@ with exec (n : nat) (p : program) (r : env) (s : stmt) {struct n} : res (outcome
                      | None => Undef
                      end
               else Undef))
+      | CNil | CDefault _ | CCase _ _ _ _ => Undef     (* clauses occur inside a switch only *)
+      | SSwitch tag cs =>
+          bind (match tag with Some e => eval n p r e | None => Ok (VBool true) end) (fun tv =>
+            bind (exec_cases n p r tv cs) (fun or =>
+              let r1 := truncate (length r) (snd or) in
+              match fst or with
+              | OBreak => Ok (ONormal, r1)
+              | o => Ok (o, r1)
+              end))
+      end
+  end
+
+(* the clause selected by the tag: case expressions are tried in order, top to bottom, left to right *)
+with exec_cases (n : nat) (p : program) (r : env) (tv : val) (cs : stmt) {struct n}
+  : res (outcome * env) :=
+  match n with
+  | O => Timeout
+  | S n =>
+      match cs with
+      | CNil => Ok (ONormal, r)
+      | CDefault b => exec n p r b
+      | CCase num [] b rest => Undef                 (* a case has at least one expression *)
+      | CCase num es b rest =>
+          bind (match_any n p r num tv es) (fun m =>
+            if m then exec n p r b else exec_cases n p r tv rest)
+      | _ => Undef
+      end
+  end
+
+with match_any (n : nat) (p : program) (r : env) (num : bool) (tv : val) (es : list expr) {struct n} : res bool :=
+  match n with
+  | O => Timeout
+  | S n =>
+      match es with
+      | [] => Ok false
+      | e :: t =>
+          bind (eval n p r e) (fun v =>
+            bind (val_match num tv v) (fun m => if m then Ok true else match_any n p r num tv t))
       end
   end
 
